@@ -7,7 +7,8 @@ import subprocess
 VERIF = os.path.dirname(os.path.dirname(os.path.abspath(__file__)))
 
 TECH = ("contract-based deductive verification: sidecar pre/postconditions, loop invariants and lemmas on the real "
-        "functions of /repo, VCs generated from their AST by /verif/pyvc and discharged by z3/cvc5; "
+        "functions of /repo, VCs generated from their AST by /verif/pyvc and discharged by z3/cvc5 (iteration-independence clauses by a "
+        "def-before-use analysis of the real loop bodies); "
         "bounded runtime-contract workload as labelled stand-in for the parts outside the verifier's reach")
 
 # property -> (category, text, note)
@@ -31,7 +32,8 @@ READY = {
  "C04": ("proof", "Relational property. Proved: tag equality HedTag.__eq__ is exactly 'same object, or canonical short forms equal ignoring case, or "
          "texts as written equal ignoring case' (so every spelling/case of one tag compares equal); the delimiter scan accepts exactly the "
          "well-formed delimiter structures and its verdict is insensitive to blanks around delimiters (shared with C01); the C01 rule contracts speak "
-         "about a tag only through its resolved node and extension (spelling-invariance of each rule). Sibling-order, duplicate detection and "
+         "about a tag only through its resolved node and extension (spelling-invariance of each rule); the loops judging top-level temporal groups "
+         "and tags treat every sibling independently (no value carried between iterations, no break: dataflow obligations). Duplicate detection and "
          "whole-string verdict equality: bounded workload (all trees <= 3-4 leaves, all orderings/spellings/blank rewrites)." + BND,
          "casefold uninterpreted; HedTag model (short_tag/org_tag as fields); canonical sort (HedGroup.sorted) bounded only"),
  "C05": ("other", "Deductive kernel: the refusal to save a multi-library merge (raises before anything is written, ghost output counter) and the "
